@@ -8,7 +8,7 @@ agree (R-SORT, when available). NOT decided: any arithmetic.
 
 from __future__ import annotations
 
-from ..rules import r_batch, r_bind, r_dispatch, r_sort, r_world
+from ..rules import r_batch, r_bind, r_dispatch, r_ref, r_sort, r_world
 from . import common
 
 SPEC = {
@@ -18,6 +18,7 @@ SPEC = {
     areas={"kinematics_dynamics"},
     what="kinematics, com_pos, camlight, flex and tendon stages",
     floor_bind=200,
+    floor_ref=(4, 1),
   ),
   "C02": dict(
     entries=["smooth.crb", "smooth.tendon_armature", "smooth.factor_m", "forward.fwd_velocity", "forward.fwd_acceleration", "smooth.solve_m", "support.mul_m", "smooth.rne", "passive.passive"],
@@ -46,6 +47,7 @@ SPEC = {
     areas={"constraint_solver"},
     what="constraint row builders",
     floor_bind=560,
+    floor_ref=(0, 3),
   ),
   "C07": dict(
     entries=["sensor.sensor_pos", "sensor.sensor_vel", "sensor.sensor_acc", "sensor.energy_pos", "sensor.energy_vel"],
@@ -79,9 +81,14 @@ def run_family(db, res, tier, prop, extra=None):
   res.extra["batched_model_accesses"] = nb
   nd = r_dispatch.check_dispatch(res, db.sm, spec["enums"], spec["areas"])
   res.floor("dispatch obligations", nd, 3)
+  enc_side = [lc for lc in db.launch_ctxs() if lc.fi.module == "set_const"]
+  n1, n2 = r_ref.check_reference_fields(res, list(scope) + enc_side)
+  if "floor_ref" in spec:
+    res.floor("reference-offset decode sites", n1, spec["floor_ref"][0])
+    res.floor("reference/current paired-index sites", n2, spec["floor_ref"][1])
   if extra is not None:
     extra(db, res, tier, scope)
-  res.rule_text = "R-BATCH: every batched Model field the stage kernels touch is indexed by the thread's world index modulo that field's own leading extent; R-SORT: an index whose index space is known (thread index over a model extent, value of an index-valued model array, address + offset) is never used in an array dimension of a different space; R-BIND: each launch formal named after a schema field is bound to that field (or a temp/ctx array/tabled pair), ranks agree, read-only Data formals are not written; R-DISPATCH: every enum member the stage dispatches on is still referenced in the areas where the confirmed baseline handles it"
+  res.rule_text = "R-REF: a Model reference field that set_const stores as an offset from a Data base cell is decoded against one of the base cells it was encoded against, and a Data field combined with its same-space reference field (qpos/qpos0, ten_length/tendon_length0, ...) is read at the same element; R-BATCH: every batched Model field the stage kernels touch is indexed by the thread's world index modulo that field's own leading extent; R-SORT: an index whose index space is known (thread index over a model extent, value of an index-valued model array, address + offset) is never used in an array dimension of a different space; R-BIND: each launch formal named after a schema field is bound to that field (or a temp/ctx array/tabled pair), ranks agree, read-only Data formals are not written; R-DISPATCH: every enum member the stage dispatches on is still referenced in the areas where the confirmed baseline handles it"
   res.explanation = (
     f"Structural necessary conditions of {prop} for the {spec['what']}: the kernels reachable from {', '.join(spec['entries'])} read and write the arrays "
     "they are declared to (a swapped pair of same-typed launch arguments compiles and passes any test that does not vary both fields), no type member lost its handler, and index spaces (body / joint / dof / qpos / geom / ... ids) are not mixed - a bug class that fixtures hide whenever the spaces coincide numerically (hinge-only models have jntid == dofid == qposadr). "
